@@ -5,6 +5,15 @@ props = [json.loads(l) for l in open('/verif/properties.jsonl')]
 
 # id -> (level text, level note, technique)
 CHECKS = {
+ "C30": ("Random programs over four regions (undeclared or declared REAL/INTEGER/BIT/OCTET) with bodies mixing SET-*/SHIFT-* (expressions of depth <= 3/4 with addresses, real and complex numbers, pi, variables, functions, prefix and infix operators) and classical instructions of every kind and operand form; checks the decomposition ok(P) <=> every instruction alone is ok, the reference real-valued rule for SET-*/SHIFT-*, invariance under a permuted region naming (same choices decoded twice), under reordering, duplication and DECLARE position, and independence of declared lengths.",
+         "No reference table for the classical instructions' typing (the statement gives rules only for SET-*/SHIFT-*); those are covered by the metamorphic relations.",
+         "property-based testing: proptest-generated programs; metamorphic relations + reference rule"),
+ "C31": ("Random extern signatures (optional return, up to 4/6 scalar / fixed / variable-length vector parameters, mutability, random identifiers) round-tripped through ExternSignature::from_str and through PRAGMA EXTERN in a program (API-built and printed/parsed); 4 CALLs per signature with arguments aimed at or away from their slots over 7 declared regions and an undeclared one, decided by a reference resolver (Ok/Err and, on Ok, kinds/types/regions/mutability).",
+         "Identifier in a scalar slot = index 0 (rustdoc of UnresolvedCallArgument); the return slot is reported mutable; index bounds of references are not part of the statement and not asserted.",
+         "property-based testing: proptest-generated signatures and calls; round-trip + reference-model oracle"),
+ "C32": ("Random parameter tuples for the 7 built-in waveform kinds with durations aligned by construction (m / rate), exact or clearly fractional paddings, bounded shape parameters; checks the sample count, defaults, samples(scale s, phase p) = s e^{2 pi i p} samples(1, 0) entrywise, zero scale => zeros, and the partial API (all known => exactly the concrete samples; one parameter unknown => placeholder of the same length, or zeros for a known zero scale).",
+         "Shapes themselves are not re-derived (snapshot-tested upstream); detuning is kept below the sample rate so that the accumulated phase is well-conditioned; tolerance 1e-9.",
+         "property-based testing: proptest-generated parameters; metamorphic (linearity, phase, partial-vs-concrete) oracle"),
  "C33": ("Random programs (definitions of every kind + straight-line body) wrapped for n in 0..6 (quick) / 0..40 (thorough) with a fresh counter region and a fixed or placeholder start label; for n >= 2 the wrapped body is executed by a reference interpreter that follows only the counter cell and the control flow, and the trace of every other instruction must be the original body exactly n times, reaching the end within a step bound; n = 1 must equal the original, n = 0 must drop only the body; all original definitions must be present and unchanged in every case.",
          "JUMP-WHEN taken iff the cell is non-zero (Quil spec / the method's rustdoc). The shape of the loop is not prescribed; a loop the interpreter cannot follow is counted as undecided and a generator-health floor turns a run with too few executed cases into exit 2.",
          "property-based testing: proptest-generated programs, executable reference interpreter (trace oracle)"),
